@@ -5,7 +5,7 @@ VARIABLES k, v
 \* c.data: the series (nan = missing); c.rs: the results of every API / encoding / layout
 \* asked for this series (all must be acceptable images of the same number)
 Verdict(c) ==
-    LET bad == {i \in 1..Len(c.rs) : c.rs[i] \in {"nan", "inf", "-inf"} \/ ~ResultOK(c.data, c.rs[i], IF c.f64[i] THEN "1000000000001/1000000000000" ELSE "1")} IN
+    LET bad == {i \in 1..Len(c.rs) : c.rs[i] \in {"nan", "inf", "-inf"} \/ ~ResultOK(c.data, c.rs[i], IF c.f64[i] THEN "1000000001/1000000000" ELSE "1")} IN
     IF bad = {} THEN <<"ACCEPT", "", "">>
     ELSE LET i == CHOOSE i \in bad : \A o \in bad : i <= o IN
          <<"REJECT", IF Degenerate(c.data) THEN "ZeroRule" ELSE "MeanFilledPearson", c.apis[i]>>
